@@ -15,6 +15,7 @@ import (
 	"path/filepath"
 	"strconv"
 	"strings"
+	"syscall"
 	"time"
 
 	"github.com/folbricht/desync"
@@ -118,6 +119,10 @@ func run(c *harness.Ctx, i int) {
 		o.MaxDepth = 1
 	}
 	leg := []string{"catar", "catar", "index", "index-cli", "tar-in", "gnu-tar-out", "mtree-out"}[rng.Intn(7)]
+	if i%16 == 5 {
+		oneFileSystem(c, o)
+		return
+	}
 	entries := treegen.Generate(rng, o)
 	c.Info("leg=%s sha256=%v entries=%d depth<=%d devices=%v xattrs=%v oddnames=%v oddmeta=%v zero-mtime=%v", leg, sha256d, len(entries), o.MaxDepth, o.Devices, o.Xattrs, o.OddNames, o.OddMeta, o.ZeroMTime)
 	c.LogInfo()
@@ -272,6 +277,100 @@ func run(c *harness.Ctx, i int) {
 		c.NonTrivial("%s|sha256=%v|dev%v|x%v|names%v|ok%v", leg, sha256d, o.Devices, o.Xattrs, o.OddNames, ok)
 	}
 	c.Sample(map[string]interface{}{"leg": leg, "sha256": sha256d, "entries": len(want), "archive_bytes": cat.Len(), "entry_types": len(types)})
+}
+
+// oneFileSystem: a tree with another filesystem (tmpfs) mounted on one of its directories, packed with the
+// one-file-system option: what lives on the mounted filesystem stays out, every entry of the tree's own filesystem -
+// in particular those that sort after the mount point - is reproduced.
+func oneFileSystem(c *harness.Ctx, o treegen.Options) {
+	rng := c.Rng
+	o.MaxDepth = 1 + rng.Intn(3)
+	o.FixedFanout = 3 + rng.Intn(8)
+	o.Devices = false
+	entries := treegen.Generate(rng, o)
+	dir := c.CaseDir()
+	src := filepath.Join(dir, "src")
+	if err := treegen.Materialize(src, entries); err != nil {
+		c.Inconclusive("cannot materialize: %v", err)
+		return
+	}
+	// mount point: an existing directory of the tree, or a new one whose name sorts early / in the middle / late
+	var dirs []string
+	for _, e := range entries {
+		if e.Kind == "dir" && e.Path != "." {
+			dirs = append(dirs, e.Path)
+		}
+	}
+	mp := ""
+	if len(dirs) > 0 && rng.Intn(2) == 0 {
+		mp = dirs[rng.Intn(len(dirs))]
+	} else {
+		parent := "."
+		if len(dirs) > 0 && rng.Intn(2) == 0 {
+			parent = dirs[rng.Intn(len(dirs))]
+		}
+		mp = filepath.Join(parent, []string{"0-mnt", "m-mnt", "zzz-mnt"}[rng.Intn(3)])
+		if err := os.Mkdir(filepath.Join(src, mp), 0755); err != nil {
+			c.Inconclusive("mkdir mount point: %v", err)
+			return
+		}
+		pt := time.Unix(1500000000, 0)
+		os.Chtimes(filepath.Join(src, filepath.Dir(mp)), pt, pt)
+	}
+	c.Info("leg=one-file-system entries=%d mount-point=%q", len(entries), mp)
+	c.LogInfo()
+	want, err := treegen.Snapshot(src)
+	dsu.Must(err)
+	if err := syscall.Mount("tmpfs", filepath.Join(src, mp), "tmpfs", 0, "size=1m"); err != nil {
+		c.Count("one_file_system_skipped_no_mount", 1)
+		return
+	}
+	defer syscall.Unmount(filepath.Join(src, mp), syscall.MNT_DETACH)
+	os.WriteFile(filepath.Join(src, mp, "on-the-other-filesystem"), []byte("x"), 0644)
+	os.MkdirAll(filepath.Join(src, mp, "sub", "deeper"), 0755)
+	os.WriteFile(filepath.Join(src, mp, "sub", "deeper", "f"), []byte("y"), 0644)
+	var cat bytes.Buffer
+	if err := desync.Tar(context.Background(), &cat, desync.NewLocalFS(src, desync.LocalFSOptions{OneFileSystem: true})); err != nil {
+		c.Violation("tar-failed", "one-file-system: %v", err)
+		return
+	}
+	dst := filepath.Join(dir, "dst")
+	os.MkdirAll(dst, 0755)
+	if err := desync.UnTar(context.Background(), bytes.NewReader(cat.Bytes()), desync.NewLocalFS(dst, desync.LocalFSOptions{})); err != nil {
+		c.Violation("untar-failed", "one-file-system archive: %v", err)
+		return
+	}
+	got, _ := treegen.Snapshot(dst)
+	// what was below the mount point before mounting is hidden; the mount point itself may or may not be recorded
+	under := func(p string) bool { return p == mp || strings.HasPrefix(p, mp+"/") }
+	w2 := map[string]treegen.Snap{}
+	for p, sn := range want {
+		if !under(p) {
+			w2[p] = sn
+		}
+	}
+	g2 := map[string]treegen.Snap{}
+	for p, sn := range got {
+		if strings.HasPrefix(p, mp+"/") {
+			c.Violation("ofs:crossed-filesystem", "one-file-system archive holds %q, which lives on the filesystem mounted at %q", p, mp)
+			return
+		}
+		if p != mp {
+			g2[p] = sn
+		}
+	}
+	// mtimes of the directories above the mount point changed by mounting/creating: not judged
+	var diffs []treegen.Diff
+	for _, d := range treegen.Compare(w2, g2) {
+		if d.Field == "mtime" && (d.Path == filepath.Dir(mp) || d.Path == ".") {
+			continue
+		}
+		diffs = append(diffs, d)
+	}
+	ok := report(c, "disk", diffs, w2)
+	c.Count("one_file_system_trees", 1)
+	c.NonTrivial("one-file-system|%s|ok%v", filepath.Base(mp), ok)
+	c.Sample(map[string]interface{}{"leg": "one-file-system", "entries": len(w2), "mount_point": mp, "archive_bytes": cat.Len()})
 }
 
 // tarIn: a tar stream of the tree (GNU tar or Go's writer) -> TarReader -> catar -> disk; ground truth = what Go's tar reader says the stream holds.
